@@ -752,6 +752,16 @@ def stepLine (d : Driver) (toks : List String) : Driver × List String :=
            ++ (if pool then ["register pbuf ok"] else []))
       else ({ live := false }, ["bad-op"])
     | _, _, _, _, _, _, _, _, _ => ({ live := false }, ["bad-op"])
+  | ["teardown", "single-last-handle", w] =>
+    -- A single-issuer ring of its own: polled once (that thread is the submitter), dropped, then a
+    -- regular `AsyncFd` — the last handle — is dropped. On the submitter's thread `Shared::drop`
+    -- submits the queued CLOSE. On ANOTHER thread the kernel refuses its `io_uring_enter` (EEXIST):
+    -- as the code stands the CLOSE is never submitted and the descriptor stays open (known finding
+    -- F23; C12 demands `closes=1 open=0` there as well — the harness oracle judges that).
+    if !d.live then (d, ["bad-op"])
+    else if w == "same" then (d, ["single-last-handle closes=1 open=0 refused=0"])
+    else if w == "other" then (d, ["single-last-handle closes=0 open=1 refused=1"])
+    else (d, ["bad-op"])
   | ["teardown", "sqpoll-last-handle"] =>
     -- A ring with a kernel submission thread, of its own: the Ring is dropped, then a regular
     -- `AsyncFd` — the last handle. Its CLOSE is queued after the Ring is gone and consumed by the
